@@ -2093,15 +2093,25 @@ class WassersteinDistanceBregman(VariationalWassersteinDistance):
                 new_distance = old_distance
                 break
 
-        # Solve for the pressure by solving a single Newton iteration
-        newton_jacobian, _, _ = self._update_regularization(flux)
+        # Solve for the pressure by solving a single Newton iteration. Distance and flux
+        # are final at this point; the mobility-weighted system is singular if the flux
+        # vanishes on a face (the potential decouples there). A failure of this
+        # post-processing step must not discard the result: mark the pressure as not
+        # available instead.
         solution_i = np.zeros_like(rhs)
         solution_i[self.flux_slice] = flux.copy()
-        newton_residual = self.optimality_conditions(rhs, solution_i)
-        newton_update, _ = self.linear_solve(
-            newton_jacobian, newton_residual, solution_i
-        )
-        solution_i[self.pressure_slice] = newton_update[self.pressure_slice]
+        try:
+            newton_jacobian, _, _ = self._update_regularization(flux)
+            newton_residual = self.optimality_conditions(rhs, solution_i)
+            newton_update, _ = self.linear_solve(
+                newton_jacobian, newton_residual, solution_i
+            )
+            solution_i[self.pressure_slice] = newton_update[self.pressure_slice]
+        except Exception:
+            warnings.warn(
+                "Pressure post-processing failed (singular system); pressure not available."
+            )
+            solution_i[self.pressure_slice] = np.nan
 
         # Summarize profiling (time in seconds, memory in GB)
         total_timings = self._analyze_timings(convergence_history["timing"])
